@@ -5,6 +5,9 @@
 import RosuModel.Model.Cmds.Frame
 import RosuModel.Model.Cmds.Codec
 import RosuModel.Model.Cmds.Timing
+import RosuModel.Model.Cmds.Sections
+import RosuModel.Model.Cmds.HitObj
+import RosuModel.Model.Cmds.Events
 namespace Rosu
 
 def dispatch (toks : List String) : String :=
@@ -12,6 +15,9 @@ def dispatch (toks : List String) : String :=
     |>.orElse (fun _ => dispatchFrame toks)
     |>.orElse (fun _ => dispatchCodec toks)
     |>.orElse (fun _ => dispatchTiming toks)
+    |>.orElse (fun _ => dispatchSections toks)
+    |>.orElse (fun _ => dispatchHitObj toks)
+    |>.orElse (fun _ => dispatchEvents toks)
     ).getD "bad-request"
 
 end Rosu
